@@ -62,6 +62,19 @@ def check(ctx, rep):
     st = [norm(s) for s in ni.body]
     rep.ob('width.stored', 'the token word is what format() measures', '(self._tokens, self._digits_before) = (word, digits_before)' in st or
            'self._tokens, self._digits_before = (word, digits_before)' in st, repr(st[-2:]), ctx.where(ni))
+    # digit positions contributed by the prefix: '**' fills two positions with digits or asterisks; of '$$' one
+    # position is the dollar sign itself, so only one is a digit position (this count drives the ^^^^ exponent
+    # and the 24-digit limit)
+    ni_ = ctx.fn(F + ':NumberField.__init__')
+    fli = ctx.flow(ni_)
+    pre = {}
+    for a in own_nodes(ni_):
+        if isinstance(a, ast.AugAssign) and norm(a.target) == 'digits_before' and isinstance(a.op, ast.Add) and isinstance(a.value, ast.Constant):
+            facts = dict((f.text, f.pol) for f in fli.facts(a))
+            if facts.get("c in (b'$', b'*')") is True:
+                star = facts.get("c == b'*'")
+                pre['**' if star else '$$' if star is False else '?'] = a.value.value
+    rep.ob('width.prefix-digit-positions', "'**' adds two digit positions, '$$' adds one", pre == {'**': 2, '$$': 1}, repr(pre), ctx.where(ni_))
     nf = ctx.fn(F + ':NumberField.format')
     fl = ctx.flow(nf)
     tok_assign = [a for a in own_nodes(nf) if isinstance(a, ast.Assign) and norm(a.targets[0]) == 'tokens']
@@ -148,6 +161,7 @@ def variants(ctx):
         return lambda tree: f(mu.find_def(tree, f_name))
 
     return [
+        Va('dollar-prefix-counts-two-digits', 'break', F, in_fn('NumberField.__init__', _dollar_two), expect='width.prefix-digit'),
         Va('leading-zero-without-room', 'break', F,
            in_fn('NumberField.format', lambda fn: mu.replace_expr(fn, mu.text_is('len(valstr) < len(tokens)'), 'len(valstr) <= len(tokens)')), expect='format.padding-keeps-fit'),
         Va('rjust-to-digit-count', 'break', F,
@@ -173,3 +187,11 @@ def variants(ctx):
            in_fn('NumberField.format', lambda fn: mu.replace_expr(fn, mu.text_is("b'*' if b'*' in tokens else b' '"), "b'*'")), expect='format.fill'),
         Va('neutral-rename', 'neutral', F, in_fn('NumberField.format', lambda fn: mu.rename_local(fn, 'post_sign', 'trailing'))),
     ]
+
+
+def _dollar_two(fn):
+    for a in ast.walk(fn):
+        if isinstance(a, ast.If) and norm(a.test) == "c == b'*'" and a.orelse and norm(a.orelse[0]) == 'digits_before += 1':
+            a.orelse[0].value = ast.Constant(value=2)
+            return True
+    return False
